@@ -32,6 +32,9 @@ HOSTILE_PP = [
 
 HOSTILE = [
     "",
+    "subroutine short(a, &\n                 b, an_undeclared_dummy_argument_with_a_long_name)\n implicit none\n integer :: a, b\nend subroutine short\n"
+    "module mshort\n use &\n   a_module_that_does_not_exist_anywhere_in_this_workspace\n integer :: &\n      twice_declared_with_a_long_name\n real :: &\n"
+    "      twice_declared_with_a_long_name\nend module mshort\n",
     "module m1\ncontains\nsubroutine sub()\nend subroutine sub\nsubroutine s2()\nassociate (a => sub)\nprint *, a\nend associate\nend subroutine s2\nend module m1\n",
     "module m1t\ntype tt\nend type\ncontains\nsubroutine s2()\nassociate (a => tt)\nprint *, a\nend associate\nend subroutine s2\nend module m1t\n",
     "module m2\ninterface gen\nmodule procedure sa\nend interface gen\nprocedure(gen), pointer :: p\ntype t\ncontains\nprocedure, nopass :: bound => gen\nend type\ncontains\n"
